@@ -362,7 +362,8 @@ def scenarios_c15(ctx, binpath, count):
             fp = w("c_%04d.json" % n, json.dumps(m))
             n += 1
             sc.append(("cde:%s:mistyped:%s:%s" % (res[:4], k, "/".join(map(str, p))[:60]), base + [fp], None, {"file": fp, "cde": True, "track": track}))
-        for ver in ([1, 0], [6, 99], [20, 0], [7], "7.0", [7, 0, 1]):
+        for ver in ([1, 0], [6, 99], [20, 0], [7], "7.0", [7, 0, 1], [], [[]], [None, 0], ["17", 0], [17.5, 0], {}, None, [-1, 0],
+                    [18446744073709551616, 0], [17, None], [17, -1], [17, "0"], True, 17):
             m = copy.deepcopy(doc)
             m["EVENT_SCHEMA_VERSION"] = ver
             fp = w("c_%04d.json" % n, json.dumps(m))
